@@ -91,6 +91,7 @@ class LPTap:
         self.snapshot = None      # callable() -> matching tuple, set by the engine
         self.solver_used = None
         self.backend_faults = 0
+        self.force_options = None   # e.g. ['preprocess off'] for second-opinion executions
 
     def install(self):
         if self.installed:
@@ -117,6 +118,12 @@ class LPTap:
             ev['fault'] = {k: v for k, v in fault.items() if not k.startswith('_')}
             self._apply_fault(prob, solver, fault, kw)
         else:
+            if self.force_options and solver is not None:
+                try:
+                    solver = pulp.PULP_CBC_CMD(msg=False, timeLimit=getattr(solver, 'timeLimit', None),
+                                               threads=getattr(solver, 'threads', None), options=list(self.force_options))
+                except Exception:
+                    pass
             _ORIG_SOLVE(prob, solver, **kw)
             if self.clock is not None:
                 self.clock.advance(0.001)
